@@ -98,41 +98,44 @@ class AtomicFloatingBase<T, true> : public AtomicBase<T> {
 
   T fetch_add(T arg, std::memory_order) noexcept {
     auto val = _value;
-    _value += arg;
+    _value = static_cast<T>(static_cast<WrapT>(_value) + static_cast<WrapT>(arg));
     return val;
   }
   T fetch_add(T arg, std::memory_order) volatile noexcept {
     auto val = _value;
-    _value += arg;
+    _value = static_cast<T>(static_cast<WrapT>(_value) + static_cast<WrapT>(arg));
     return val;
   }
 
   T fetch_sub(T arg, std::memory_order) noexcept {
     auto val = _value;
-    _value -= arg;
+    _value = static_cast<T>(static_cast<WrapT>(_value) - static_cast<WrapT>(arg));
     return val;
   }
   T fetch_sub(T arg, std::memory_order) volatile noexcept {
     auto val = _value;
-    _value -= arg;
+    _value = static_cast<T>(static_cast<WrapT>(_value) - static_cast<WrapT>(arg));
     return val;
   }
 
   T operator+=(T arg) noexcept {
-    return _value += arg;
+    return _value = static_cast<T>(static_cast<WrapT>(_value) + static_cast<WrapT>(arg));
   }
   T operator+=(T arg) volatile noexcept {
-    return _value += arg;
+    return _value = static_cast<T>(static_cast<WrapT>(_value) + static_cast<WrapT>(arg));
   }
 
   T operator-=(T arg) noexcept {
-    return _value -= arg;
+    return _value = static_cast<T>(static_cast<WrapT>(_value) - static_cast<WrapT>(arg));
   }
   T operator-=(T arg) volatile noexcept {
-    return _value -= arg;
+    return _value = static_cast<T>(static_cast<WrapT>(_value) - static_cast<WrapT>(arg));
   }
 
  protected:
+  // std::atomic arithmetic wraps around for signed T as well, plain signed overflow is undefined behaviour:
+  // compute in the unsigned counterpart
+  using WrapT = typename std::conditional_t<std::is_integral_v<T>, std::make_unsigned<T>, std::common_type<T>>::type;
   using Base::_value;
 };
 
@@ -185,31 +188,39 @@ class AtomicIntegralBase<T, true> : public AtomicFloatingBase<T, true> {
   }
 
   T operator++() noexcept {
-    return ++_value;
+    return _value = static_cast<T>(static_cast<WrapT>(_value) + 1);
   }
   T operator++() volatile noexcept {
-    return ++_value;
+    return _value = static_cast<T>(static_cast<WrapT>(_value) + 1);
   }
 
   T operator++(int) noexcept {
-    return _value++;
+    auto val = _value;
+    _value = static_cast<T>(static_cast<WrapT>(_value) + 1);
+    return val;
   }
   T operator++(int) volatile noexcept {
-    return _value++;
+    auto val = _value;
+    _value = static_cast<T>(static_cast<WrapT>(_value) + 1);
+    return val;
   }
 
   T operator--() noexcept {
-    return --_value;
+    return _value = static_cast<T>(static_cast<WrapT>(_value) - 1);
   }
   T operator--() volatile noexcept {
-    return --_value;
+    return _value = static_cast<T>(static_cast<WrapT>(_value) - 1);
   }
 
   T operator--(int) noexcept {
-    return _value--;
+    auto val = _value;
+    _value = static_cast<T>(static_cast<WrapT>(_value) - 1);
+    return val;
   }
   T operator--(int) volatile noexcept {
-    return _value--;
+    auto val = _value;
+    _value = static_cast<T>(static_cast<WrapT>(_value) - 1);
+    return val;
   }
 
   T operator&=(T arg) noexcept {
@@ -235,6 +246,7 @@ class AtomicIntegralBase<T, true> : public AtomicFloatingBase<T, true> {
 
  protected:
   using Base::_value;
+  using typename Base::WrapT;
 };
 
 template <typename T>
